@@ -182,7 +182,9 @@ Print Assumptions indirect_arrives.
 (* --- 7. log_term_1 without the cancellation ------------------------------------------------- *)
 Theorem log1_stable : forall s b z, good s -> 0 < b -> b <= nzs s z ->
   let '(alpha, n_z, gamma, log_1, log_2) := SPath_int_terms z b s in
-  log_1 = b ^ 2 * (Ice_k s * exp (Ice_a s * z)) ^ 2 / (Ice_n0 s * n_z - b ^ 2 + sqrt (alpha * gamma)).
+  log_1 = Ice_n0 s * n_z - b ^ 2 - sqrt (alpha * gamma) /\
+  log_1 = b ^ 2 * (Ice_n0 s - n_z) ^ 2 / (Ice_n0 s * n_z - b ^ 2 + sqrt (alpha * gamma)) /\
+  0 < log_1.
 Proof. exact log1_stable_lemma. Qed.
 Print Assumptions log1_stable.
 
@@ -226,5 +228,8 @@ Theorem hypotheses_satisfiable :
   good example_ice /\ wf example_ice /\
   SPath_beta_tolerance < SPath_beta example_path < nzs example_ice (-100) /\
   -1 <= snell_arg example_path (SPath_z1 example_path) <= 1.
-Proof. destruct example_good. destruct example_beta_in_range. repeat split; assumption || tauto. Qed.
+Proof.
+  destruct example_good as [Hg Hw]. destruct example_beta_in_range as [Hb Hs].
+  split; [exact Hg|]. split; [exact Hw|]. split; [exact Hb | exact Hs].
+Qed.
 Print Assumptions hypotheses_satisfiable.
